@@ -349,7 +349,8 @@ func (g *OpGen) genAdvance(m *Model) int64 {
 	r := g.R
 	if m != nil && r.Intn(2) == 0 {
 		var cands []int64
-		for _, e := range m.m {
+		for _, k := range sortedKeys(m.m) {
+			e := m.m[k]
 			if !e.ExpNever && e.Exp > m.now {
 				cands = append(cands, e.Exp-m.now)
 			}
